@@ -23,6 +23,25 @@ FIXTURE = [(1, 2), (1, 14), (2, 4), (2, 13), (2, 14), (3, 4), (3, 5), (4, 5), (4
            (7, 8), (7, 13), (8, 9), (8, 13), (9, 10), (9, 11), (9, 13), (10, 11), (11, 12), (12, 13), (13, 14)]
 
 
+def _tri(*ts):
+    return sorted({tuple(sorted(p)) for t in ts for p in itertools.combinations(t, 2)})
+
+
+TRIANGLE_COMPLEXES = [
+    # bowtie {0,1,2},{0,3,4}; its wings joined by the diamonds {1,5,6}/{3,5,6} and {2,7,8}/{4,7,8}
+    _tri((0, 1, 2), (0, 3, 4), (1, 5, 6), (3, 5, 6), (2, 7, 8), (4, 7, 8)),
+    # the same with only one diamond, and with the diamonds on the same wing pair
+    _tri((0, 1, 2), (0, 3, 4), (1, 5, 6), (3, 5, 6)),
+    _tri((0, 1, 2), (0, 3, 4), (1, 5, 6), (3, 5, 6), (1, 7, 8), (3, 7, 8)),
+    # triangle strip on 9 vertices
+    _tri(*[(i, i + 1, i + 2) for i in range(7)]),
+    # three bowties in a ring
+    _tri((0, 1, 2), (2, 3, 4), (4, 5, 6), (6, 7, 8), (8, 9, 0)),
+    # octahedron with two pendant triangles
+    _tri((0, 1, 2), (0, 2, 3), (0, 3, 4), (0, 4, 1), (5, 1, 2), (5, 2, 3), (5, 3, 4), (5, 4, 1), (0, 6, 7), (5, 8, 9)),
+]
+
+
 def instances(tier, seed):
     if tier == "quick":
         # every connected 7-vertex graph up to isomorphism, two labelings, the size bounds around the clique number
@@ -43,6 +62,16 @@ def instances(tier, seed):
         for at in range(7):
             yield {"kind": "edges", "edges": edges + [(at, 7)], "m0s": [2, 3, 4], "labels":
                    enumr.relabelings(8, seed, kinds=("identity" if at % 2 else "reversed",))[0]}
+    # two K_n sharing one edge, m0 = n (overlap scores as small as 1/C(n,2)); and a hand catalogue of 9-10 vertex
+    # "triangle complexes" (bowties whose wings are joined by diamonds, triangle strips, octahedron + pendant triangles)
+    for n in range(3, 17 if tier == "quick" else 19):
+        a = list(range(n))
+        b = [0, 1] + list(range(n, 2 * n - 2))
+        edges = sorted({tuple(sorted(p)) for c in (a, b) for p in itertools.combinations(c, 2)})
+        yield {"kind": "edges", "edges": edges, "m0s": [n] + ([n - 1] if n <= 7 else []), "labels": None}
+    for edges in TRIANGLE_COMPLEXES:
+        for lab in enumr.relabelings(1 + max(v for e in edges for v in e), seed, kinds=("identity", "reversed")):
+            yield {"kind": "edges", "edges": edges, "m0s": [2, 3, 4], "labels": lab}
     for n in range(2, 7):
         masks = list(enumr.labelled_graph_masks(n, no_isolated=True))
         step = 96
